@@ -188,6 +188,11 @@ pub trait Check: Sync {
     fn crash_is_violation(&self) -> bool {
         false
     }
+    /// CPU time a single case may use before the shard is declared stuck in it (non-termination is a violation of
+    /// "returns a value or an error"); `None` = not monitored (cases that legitimately run long or idle-spin).
+    fn hang_cpu_budget(&self, _tier: Tier) -> Option<Duration> {
+        None
+    }
     fn exhaustive(&self, _tier: Tier) -> bool {
         false
     }
@@ -358,6 +363,17 @@ fn load_known(id: &str) -> Vec<KnownFinding> {
     f.findings.into_iter().filter(|k| k.property == id).collect()
 }
 
+/// user + system CPU time of a process and its threads so far, from /proc (clock ticks of 1/100 s)
+fn process_cpu_seconds(pid: u32) -> Option<f64> {
+    let stat = std::fs::read_to_string(format!("/proc/{pid}/stat")).ok()?;
+    let rest = &stat[stat.rfind(')')? + 1..];
+    let f: Vec<&str> = rest.split_whitespace().collect();
+    // after the command name: state is field 0, utime field 11, stime field 12
+    let ut: f64 = f.get(11)?.parse().ok()?;
+    let stt: f64 = f.get(12)?.parse().ok()?;
+    Some((ut + stt) / 100.0)
+}
+
 /// Parent: spawn shards, merge, judge, write evidence. Returns the process exit code.
 pub fn run_parent(check: &dyn Check, o: &Opts) -> i32 {
     let id = check.id();
@@ -404,22 +420,75 @@ pub fn run_parent(check: &dyn Check, o: &Opts) -> i32 {
     let mut merged = Report::default();
     let mut inconclusive: Vec<String> = vec![];
     let mut crash_violations: Vec<Violation> = vec![];
-    for (shard, out, mut child) in children {
-        let status = loop {
-            match child.try_wait() {
-                Ok(Some(st)) => break Some(st),
-                Ok(None) => {
-                    if start.elapsed() > watchdog {
-                        let _ = child.kill();
-                        let _ = child.wait();
-                        break None;
-                    }
-                    std::thread::sleep(Duration::from_millis(50));
-                }
-                Err(_) => break None,
+    // Non-termination monitor (checks that opt in through `hang_cpu_budget`): a shard whose journal names the same case
+    // while the process has burnt more than the budget of *CPU time* (not wall time: immune to a loaded machine) is
+    // stuck in that case; it is killed and the case reported.
+    let hang_budget = check.hang_cpu_budget(o.tier);
+    let read_idx = |shard: usize| -> Option<u64> { std::fs::read(journal_path(id, shard)).ok().and_then(|b| b.get(..8).map(|s| u64::from_le_bytes(s.try_into().expect("8 bytes")))) };
+    struct Watch {
+        shard: usize,
+        out: PathBuf,
+        child: std::process::Child,
+        status: Option<Option<std::process::ExitStatus>>,
+        idx: Option<u64>,
+        cpu_at_idx: f64,
+        hung: Option<(u64, f64)>,
+    }
+    let mut watch: Vec<Watch> = children.into_iter().map(|(shard, out, child)| Watch { shard, out, child, status: None, idx: None, cpu_at_idx: 0.0, hung: None }).collect();
+    let mut last_cpu_poll = Instant::now();
+    loop {
+        let mut running = 0;
+        let poll_cpu = hang_budget.is_some() && last_cpu_poll.elapsed() > Duration::from_millis(500);
+        for w in watch.iter_mut() {
+            if w.status.is_some() {
+                continue;
             }
-        };
-        match status {
+            match w.child.try_wait() {
+                Ok(Some(st)) => w.status = Some(Some(st)),
+                Ok(None) => {
+                    running += 1;
+                    if start.elapsed() > watchdog {
+                        let _ = w.child.kill();
+                        let _ = w.child.wait();
+                        w.status = Some(None);
+                    } else if poll_cpu {
+                        if let (Some(budget), Some(cpu)) = (hang_budget, process_cpu_seconds(w.child.id())) {
+                            let idx = read_idx(w.shard);
+                            if idx != w.idx {
+                                w.idx = idx;
+                                w.cpu_at_idx = cpu;
+                            } else if idx.is_some() && idx != Some(u64::MAX) && cpu - w.cpu_at_idx > budget.as_secs_f64() {
+                                w.hung = Some((idx.unwrap_or(0), cpu - w.cpu_at_idx));
+                                let _ = w.child.kill();
+                                let _ = w.child.wait();
+                                w.status = Some(None);
+                            }
+                        }
+                    }
+                }
+                Err(_) => w.status = Some(None),
+            }
+        }
+        if poll_cpu {
+            last_cpu_poll = Instant::now();
+        }
+        if running == 0 {
+            break;
+        }
+        std::thread::sleep(Duration::from_millis(50));
+    }
+    for w in watch {
+        let (shard, out) = (w.shard, w.out);
+        if let Some((case, cpu)) = w.hung {
+            crash_violations.push(Violation {
+                signature: "non-termination".into(),
+                detail: format!("shard {shard}: case {case} used {cpu:.0} s of CPU time without finishing (cases of this check normally take milliseconds); the shard was stopped"),
+                index: case,
+                witness: json!({"cpu_seconds": cpu, "shard": shard}),
+            });
+            continue;
+        }
+        match w.status.flatten() {
             None => inconclusive.push(format!("shard {shard}: wall-clock watchdog fired after {watchdog:?}")),
             Some(st) if st.success() => match std::fs::read(&out).ok().and_then(|b| serde_json::from_slice::<Report>(&b).ok()) {
                 Some(r) => merged.merge(r),
@@ -427,9 +496,7 @@ pub fn run_parent(check: &dyn Check, o: &Opts) -> i32 {
             },
             Some(st) => {
                 // abnormal death: which case was running?
-                let idx = std::fs::read(journal_path(id, shard))
-                    .ok()
-                    .and_then(|b| b.get(..8).map(|s| u64::from_le_bytes(s.try_into().expect("8 bytes"))));
+                let idx = read_idx(shard);
                 if check.crash_is_violation() && idx.is_some() && idx != Some(u64::MAX) {
                     crash_violations.push(Violation {
                         signature: "process-crash".into(),
